@@ -57,7 +57,7 @@ Ltac abs_keys d :=
 Definition kids (P : pyval -> Prop) (o : pyval) : Prop :=
   match o with
   | PTuple l | PList l => Forall P l
-  | PDict kvs => Forall (fun kv => P (fst kv) /\ P (snd kv)) kvs
+  | PDict kvs | PObj CQuasiDist (PDict kvs :: _) => Forall (fun kv => P (fst kv) /\ P (snd kv)) kvs   (* .items() *)
   | _ => True
   end.
 
@@ -77,7 +77,9 @@ Proof.
   - assert (F : Forall (fun kv => P (fst kv) /\ P (snd kv)) kvs)
       by (eapply Forall_impl; [|exact IH]; intros kv [[Hk _] [Hv _]]; split; assumption).
     split; [apply H|]; exact F.
-  - split; [apply H; exact IH|exact I].
+  - split; [apply H; exact IH|].
+    destruct c; try exact I. destruct l as [|x l]; [exact I|]. destruct x; try exact I.
+    inversion_clear IH as [|? ? [_ K] _]. exact K.
 Qed.
 
 (* ------------------------------------------------------------------ JSSPJSONEncoder.default *)
@@ -299,14 +301,17 @@ Lemma opt_keys_eq (f : pyval -> result pyval) (m : pyval) :
    else do kvs <- pv_items m; do xs <- mapM (fun '(a, b) => do v <- f a; Ok [v; b]) kvs; Ok (PList (map PList xs)))
   = match m with
     | PNone => Ok PNone
-    | PDict kvs => do r <- mapR (fun kv : pyval * pyval => let '(k, v) := kv in do y <- f k; Ok (PList [y; v])) kvs; Ok (PList r)
+    | PDict kvs | PObj CQuasiDist (PDict kvs :: _) =>
+        do r <- mapR (fun kv : pyval * pyval => let '(k, v) := kv in do y <- f k; Ok (PList [y; v])) kvs; Ok (PList r)
     | _ => Err ModelScope
     end.
 Proof.
-  destruct m; try reflexivity. cbn [is_none pv_items bind].
-  rewrite (mapM_fmap _ PList _ (fun r => Ok (PList r))).
-  rewrite (mapR_ext _ (fun kv : pyval * pyval => let '(k, v) := kv in do y <- f k; Ok (PList [y; v]))); [reflexivity|].
-  intros [a b] _. destruct (f a); reflexivity.
+  destruct m as [| | | | | |kvs| | |c l]; try reflexivity;
+    [|destruct c; try reflexivity; destruct l as [|x l]; try reflexivity; destruct x as [| | | | | |kvs| | |]; try reflexivity].
+  all: cbn [is_none pv_items view_dict bind].
+  all: rewrite (mapM_fmap _ PList _ (fun r => Ok (PList r))).
+  all: rewrite (mapR_ext _ (fun kv : pyval * pyval => let '(k, v) := kv in do y <- f k; Ok (PList [y; v]))); [reflexivity|].
+  all: intros [a b] _; destruct (f a); reflexivity.
 Qed.
 
 Lemma opt_vals_eq (f : pyval -> result pyval) (m : pyval) :
@@ -314,14 +319,17 @@ Lemma opt_vals_eq (f : pyval -> result pyval) (m : pyval) :
    else do kvs <- pv_items m; do xs <- mapM (fun '(a, b) => do v <- f b; Ok [a; v]) kvs; Ok (PList (map PList xs)))
   = match m with
     | PNone => Ok PNone
-    | PDict kvs => do r <- mapR (fun kv : pyval * pyval => let '(k, v) := kv in do y <- f v; Ok (PList [k; y])) kvs; Ok (PList r)
+    | PDict kvs | PObj CQuasiDist (PDict kvs :: _) =>
+        do r <- mapR (fun kv : pyval * pyval => let '(k, v) := kv in do y <- f v; Ok (PList [k; y])) kvs; Ok (PList r)
     | _ => Err ModelScope
     end.
 Proof.
-  destruct m; try reflexivity. cbn [is_none pv_items bind].
-  rewrite (mapM_fmap _ PList _ (fun r => Ok (PList r))).
-  rewrite (mapR_ext _ (fun kv : pyval * pyval => let '(k, v) := kv in do y <- f v; Ok (PList [k; y]))); [reflexivity|].
-  intros [a b] _. destruct (f b); reflexivity.
+  destruct m as [| | | | | |kvs| | |c l]; try reflexivity;
+    [|destruct c; try reflexivity; destruct l as [|x l]; try reflexivity; destruct x as [| | | | | |kvs| | |]; try reflexivity].
+  all: cbn [is_none pv_items view_dict bind].
+  all: rewrite (mapM_fmap _ PList _ (fun r => Ok (PList r))).
+  all: rewrite (mapR_ext _ (fun kv : pyval * pyval => let '(k, v) := kv in do y <- f v; Ok (PList [k; y]))); [reflexivity|].
+  all: intros [a b] _; destruct (f b); reflexivity.
 Qed.
 
 (* the model's clauses, unfolded once (the model is a Fixpoint; these are its defining equations) *)
@@ -342,12 +350,14 @@ Lemma evqe_default_population individuals representatives members membership :
                end;
     do mem <- match members with
               | PNone => Ok PNone
-              | PDict kvs => do r <- mapR (fun kv : pyval * pyval => let '(k, v) := kv in do y <- evqe_default k; Ok (PList [y; v])) kvs; Ok (PList r)
+              | PDict kvs | PObj CQuasiDist (PDict kvs :: _) =>
+                  do r <- mapR (fun kv : pyval * pyval => let '(k, v) := kv in do y <- evqe_default k; Ok (PList [y; v])) kvs; Ok (PList r)
               | _ => Err ModelScope
               end;
     do mship <- match membership with
                 | PNone => Ok PNone
-                | PDict kvs => do r <- mapR (fun kv : pyval * pyval => let '(k, v) := kv in do y <- evqe_default v; Ok (PList [k; y])) kvs; Ok (PList r)
+                | PDict kvs | PObj CQuasiDist (PDict kvs :: _) =>
+                    do r <- mapR (fun kv : pyval * pyval => let '(k, v) := kv in do y <- evqe_default v; Ok (PList [k; y])) kvs; Ok (PList r)
                 | _ => Err ModelScope
                 end;
     do inds <- match individuals with PTuple l | PList l => mapR evqe_default l | _ => Err ModelScope end;
@@ -413,9 +423,11 @@ Lemma opt_keys_cong (f g : pyval -> result pyval) (m : pyval) : kids (fun x => f
   = (if is_none m then Ok PNone
      else do kvs <- pv_items m; do xs <- mapM (fun '(a, b) => do v <- g a; Ok [v; b]) kvs; Ok (PList (map PList xs))).
 Proof.
-  intros H. destruct m; try reflexivity. cbn [is_none pv_items bind kids] in *.
-  rewrite (mapM_ext_in _ (fun '(a, b) => do v <- g a; Ok [v; b])); [reflexivity|].
-  intros [a b] Hin. rewrite Forall_forall in H. destruct (H _ Hin) as [Ha _]. cbn [fst] in Ha. rewrite Ha. reflexivity.
+  intros H. destruct m as [| | | | | |kvs| | |c l]; try reflexivity;
+    [|destruct c; try reflexivity; destruct l as [|x l]; try reflexivity; destruct x as [| | | | | |kvs| | |]; try reflexivity].
+  all: cbn [is_none pv_items view_dict bind kids] in *.
+  all: rewrite (mapM_ext_in _ (fun '(a, b) => do v <- g a; Ok [v; b])); [reflexivity|].
+  all: intros [a b] Hin; rewrite Forall_forall in H; destruct (H _ Hin) as [Ha _]; cbn [fst] in Ha; rewrite Ha; reflexivity.
 Qed.
 
 Lemma opt_vals_cong (f g : pyval -> result pyval) (m : pyval) : kids (fun x => f x = g x) m ->
@@ -424,9 +436,11 @@ Lemma opt_vals_cong (f g : pyval -> result pyval) (m : pyval) : kids (fun x => f
   = (if is_none m then Ok PNone
      else do kvs <- pv_items m; do xs <- mapM (fun '(a, b) => do v <- g b; Ok [a; v]) kvs; Ok (PList (map PList xs))).
 Proof.
-  intros H. destruct m; try reflexivity. cbn [is_none pv_items bind kids] in *.
-  rewrite (mapM_ext_in _ (fun '(a, b) => do v <- g b; Ok [a; v])); [reflexivity|].
-  intros [a b] Hin. rewrite Forall_forall in H. destruct (H _ Hin) as [_ Hb]. cbn [snd] in Hb. rewrite Hb. reflexivity.
+  intros H. destruct m as [| | | | | |kvs| | |c l]; try reflexivity;
+    [|destruct c; try reflexivity; destruct l as [|x l]; try reflexivity; destruct x as [| | | | | |kvs| | |]; try reflexivity].
+  all: cbn [is_none pv_items view_dict bind kids] in *.
+  all: rewrite (mapM_ext_in _ (fun '(a, b) => do v <- g b; Ok [a; v])); [reflexivity|].
+  all: intros [a b] Hin; rewrite Forall_forall in H; destruct (H _ Hin) as [_ Hb]; cbn [snd] in Hb; rewrite Hb; reflexivity.
 Qed.
 
 (* the layer encoder's part is fixed (layer_default, itself unique): uniqueness in the function standing for the population encoder's self.default *)
@@ -489,14 +503,11 @@ Qed.
 Print Assumptions link_evqe_hook.
 
 (* ------------------------------------------------------------------ EvolvingAnsatzMinimumEigensolverResultJSONEncoder.default *)
-(* Where model and code differ (found while linking, see translator/README.md): Python's isinstance(x, dict) holds for a
-   QuasiDistribution (a dict subclass), which is how the generated code reads it (view_dict / is_dict); the model's
-   clauses for the auxiliary values (result_default, unwrap_aux) match a plain PDict only.  A QuasiDistribution as
-   `aux_operators_evaluated` is outside the documented type (ListOrDict of tuples): the two lemmas about the auxiliary
-   values carry the hypothesis that it is not one. *)
-Definition quasi_dict (a : pyval) : bool := match a with PObj CQuasiDist (PDict _ :: _) => true | _ => false end.
-Definition aux_is_quasi (o : pyval) : bool :=
-  match o with PObj CSolverResult [_; a; _; _; _; _; _; _] => quasi_dict a | _ => false end.
+(* Python's isinstance(x, dict) holds for a QuasiDistribution (a dict subclass): the generated code reads it through
+   view_dict / is_dict / pv_items, and the model's clauses for the auxiliary values (result_default, unwrap_aux) and for the
+   species maps (.items()) match `PDict kvs | PObj CQuasiDist (PDict kvs :: _)` alike.  (A QuasiDistribution as
+   aux_operators_evaluated is outside the documented type; found while linking, the model now follows the code:
+   the encoder writes {"type": "dict", ...}, the decoder raises KeyError for d["type"].) *)
 
 (* [[key, value] for key, value in d.items()] *)
 Lemma pairs_value (data : list (pyval * pyval)) :
@@ -507,7 +518,7 @@ Lemma ev_eq (f : pyval -> result pyval) (ev : pyval) :
   (if is_complex ev then do v <- f ev; Ok v else Ok ev) = match ev with PComplex _ _ => f ev | _ => Ok ev end.
 Proof. destruct ev; cbn [is_complex view_complex]; rewrite ?bind_ok; reflexivity. Qed.
 
-Lemma aux_eq (a : pyval) : quasi_dict a = false ->
+Lemma aux_eq (a : pyval) :
   (if is_list a
    then do v <- py_list a; Ok (PDict [(PStr "type", PStr "list"); (PStr "values", v)])
    else do j <- (if is_dict a
@@ -517,13 +528,15 @@ Lemma aux_eq (a : pyval) : quasi_dict a = false ->
         Ok j)
   = match a with
     | PList l => Ok (PDict [(PStr "type", PStr "list"); (PStr "values", PList l)])
-    | PDict kvs => Ok (PDict [(PStr "type", PStr "dict"); (PStr "values", PList (map (fun kv => PList [fst kv; snd kv]) kvs))])
+    | PDict kvs | PObj CQuasiDist (PDict kvs :: _) =>
+        Ok (PDict [(PStr "type", PStr "dict"); (PStr "values", PList (map (fun kv => PList [fst kv; snd kv]) kvs))])
     | _ => Ok PNone
     end.
 Proof.
-  intros H. destruct a as [| | | | | |kvs| | |c l]; try reflexivity.
+  destruct a as [| | | | | |kvs| | |c l]; try reflexivity.
   - cbn. rewrite pairs_value. reflexivity.
-  - destruct c; try reflexivity. destruct l as [|x l]; [reflexivity|]. destruct x; try reflexivity. discriminate H.
+  - destruct c; try reflexivity. destruct l as [|x l]; [reflexivity|]. destruct x; try reflexivity.
+    cbn. rewrite pairs_value. reflexivity.
 Qed.
 
 Lemma hist_eq (f : pyval -> result pyval) (h : pyval) :
@@ -537,7 +550,8 @@ Lemma result_default_solver eigenvalue aux eigenstate best evaluations generatio
   = do ev <- match eigenvalue with PComplex _ _ => result_default head_flags eigenvalue | _ => Ok eigenvalue end;
     do av <- match aux with
              | PList l => Ok (PDict [(PStr "type", PStr "list"); (PStr "values", PList l)])
-             | PDict kvs => Ok (PDict [(PStr "type", PStr "dict"); (PStr "values", PList (map (fun kv => PList [fst kv; snd kv]) kvs))])
+             | PDict kvs | PObj CQuasiDist (PDict kvs :: _) =>
+                 Ok (PDict [(PStr "type", PStr "dict"); (PStr "values", PList (map (fun kv => PList [fst kv; snd kv]) kvs))])
              | _ => Ok PNone
              end;
     do hist <- match history with PList l => do hs <- mapR (result_default head_flags) l; Ok (PList hs) | _ => Ok PNone end;
@@ -569,21 +583,21 @@ Proof.
 Qed.
 Print Assumptions link_result_default_quasi.
 
-Lemma link_result_default_solver_case x1 x2 x3 x4 x5 x6 x7 x8 : quasi_dict x2 = false ->
+Lemma link_result_default_solver_case x1 x2 x3 x4 x5 x6 x7 x8 :
   gen_result_default layer_default evqe_default (result_default head_flags) (PObj CSolverResult [x1; x2; x3; x4; x5; x6; x7; x8])
   = result_default head_flags (PObj CSolverResult [x1; x2; x3; x4; x5; x6; x7; x8]).
 Proof.
-  intros Hq. unfold gen_result_default.
+  unfold gen_result_default.
   cbn [existsb gen_evqe_serializable_types is_instance orb is_none view_complex view_quasi view_circuit view_obj4 view_obj8 cls_eqb fst snd].
   cbv zeta. rewrite result_default_solver.
-  rewrite ev_eq. bind_step. rewrite (aux_eq _ Hq). bind_step. rewrite hist_eq. bind_step. reflexivity.
+  rewrite ev_eq. bind_step. rewrite aux_eq. bind_step. rewrite hist_eq. bind_step. reflexivity.
 Qed.
 Print Assumptions link_result_default_solver_case.
 
-Lemma link_result_default : forall o, aux_is_quasi o = false ->
+Lemma link_result_default : forall o,
   gen_result_default layer_default evqe_default (result_default head_flags) o = result_default head_flags o.
 Proof.
-  intros o Hq. destruct o as [| | | | | | | | |c l]; try reflexivity.
+  intros o. destruct o as [| | | | | | | | |c l]; try reflexivity.
   destruct c.
   1-12: reflexivity.
   - (* EVQEIndividual *) rewrite link_result_default_evqe by reflexivity. reflexivity.
@@ -596,27 +610,9 @@ Proof.
   - (* EvolvingAnsatzMinimumEigensolverResult *)
     destruct l as [|x1 [|x2 [|x3 [|x4 [|x5 [|x6 [|x7 [|x8 [|x9 l]]]]]]]]].
     1-8: reflexivity. 2: reflexivity.
-    apply link_result_default_solver_case. exact Hq.
+    apply link_result_default_solver_case.
 Qed.
 Print Assumptions link_result_default.
-
-(* uniqueness, on the values that contain no solver result with a QuasiDistribution as auxiliary value (the hypothesis of
-   link_result_default, hereditarily) *)
-Fixpoint aux_free (v : pyval) {struct v} : bool :=
-  let fix go (l : list pyval) : bool := match l with [] => true | x :: xs => aux_free x && go xs end in
-  match v with
-  | PTuple l | PList l => go l
-  | PDict kvs =>
-      (fix gok (l : list (pyval * pyval)) : bool :=
-         match l with [] => true | (k, x) :: xs => aux_free k && aux_free x && gok xs end) kvs
-  | PObj c l => negb (aux_is_quasi v) && go l
-  | _ => true
-  end.
-
-Lemma aux_free_list l : aux_free (PList l) = forallb aux_free l.
-Proof. reflexivity. Qed.
-Lemma aux_free_obj c l : aux_free (PObj c l) = negb (aux_is_quasi (PObj c l)) && forallb aux_free l.
-Proof. reflexivity. Qed.
 
 (* congruence of the two composite clauses in the function standing for self.default *)
 Lemma result_popeval_cong (f g : pyval -> result pyval) x1 x2 x3 x4 : f x1 = g x1 -> f x3 = g x3 ->
@@ -649,30 +645,26 @@ Qed.
 
 Lemma link_result_default_unique : forall f : pyval -> result pyval,
   (forall o, f o = gen_result_default layer_default evqe_default f o) ->
-  forall o, aux_free o = true -> f o = result_default head_flags o.
+  forall o, f o = result_default head_flags o.
 Proof.
-  intros f Hf. apply (pyval_ind2 (fun o => aux_free o = true -> f o = result_default head_flags o)). intros o IH Hfree. rewrite Hf.
+  intros f Hf. apply pyval_ind2. intros o IH. rewrite Hf.
   destruct o as [| | | | | | | | |c l]; try reflexivity.
-  rewrite aux_free_obj in Hfree. apply andb_prop in Hfree. destruct Hfree as [Hq Hl]. apply negb_true_iff in Hq.
   destruct c.
   1-12: reflexivity.
-  1-3: rewrite <- (link_result_default _ Hq); reflexivity.
+  1-3: rewrite <- link_result_default; reflexivity.
   - (* BasePopulationEvaluationResult *)
     destruct l as [|x1 [|x2 [|x3 [|x4 [|x5 l]]]]]; try reflexivity.
-    cbn [forallb] in Hl. repeat (apply andb_prop in Hl; destruct Hl as [? Hl]).
     inversion_clear IH as [|? ? [Q1 _] IH1]. inversion_clear IH1 as [|? ? _ IH2]. inversion_clear IH2 as [|? ? [Q3 _] _].
-    rewrite <- (link_result_default _ Hq). apply result_popeval_cong; [apply Q1|apply Q3]; assumption.
+    rewrite <- link_result_default. apply result_popeval_cong; assumption.
   - (* EvolvingAnsatzMinimumEigensolverResult *)
     destruct l as [|x1 [|x2 [|x3 [|x4 [|x5 [|x6 [|x7 [|x8 [|x9 l]]]]]]]]].
     1-8: reflexivity. 2: reflexivity.
-    cbn [forallb] in Hl. repeat (apply andb_prop in Hl; destruct Hl as [? Hl]).
     inversion_clear IH as [|? ? [Q1 _] IH1]. inversion_clear IH1 as [|? ? _ IH2]. inversion_clear IH2 as [|? ? [Q3 _] IH3].
     inversion_clear IH3 as [|? ? [Q4 _] IH4]. inversion_clear IH4 as [|? ? _ IH5]. inversion_clear IH5 as [|? ? _ IH6].
     inversion_clear IH6 as [|? ? [_ K7] IH7]. inversion_clear IH7 as [|? ? [Q8 _] _].
-    rewrite <- (link_result_default _ Hq).
-    apply result_solver_cong; [apply Q1|apply Q3|apply Q4|apply Q8|]; try assumption.
-    intros l' ->. cbn [kids] in K7. apply Forall_forall. intros y Hy. rewrite Forall_forall in K7. apply (K7 y Hy).
-    match goal with H : aux_free (PList _) = true |- _ => change (forallb aux_free l' = true) in H; rewrite forallb_forall in H; apply (H y Hy) end.
+    rewrite <- link_result_default.
+    apply result_solver_cong; try assumption.
+    intros l' ->. cbn [kids] in K7. exact K7.
 Qed.
 Print Assumptions link_result_default_unique.
 
@@ -703,7 +695,7 @@ Proof.
   cbn [find fst snd pdict_get]. destruct (py_eqb k' k); [reflexivity|exact IH].
 Qed.
 
-Lemma unwrap_eq (a : pyval) : quasi_dict a = false ->
+Lemma unwrap_eq (a : pyval) :
   match view_dict a with
   | Some kvs =>
       do t <- py_dict_get py_eqb kvs (PStr "type");
@@ -718,31 +710,39 @@ Lemma unwrap_eq (a : pyval) : quasi_dict a = false ->
   | None => Ok PNone
   end = unwrap_aux a.
 Proof.
-  intros H. destruct a as [| | | | | |kvs| | |c l]; try reflexivity.
-  - cbn [view_dict unwrap_aux]. unfold EvqeCodec.K. rewrite !pget_eq.
+  assert (E : forall kvs,
+    (do t <- py_dict_get py_eqb kvs (PStr "type");
+     do j <- (if py_eqb t (PStr "list")
+              then do v <- py_dict_get py_eqb kvs (PStr "values"); Ok v
+              else do t' <- py_dict_get py_eqb kvs (PStr "type");
+                   do j' <- (if py_eqb t' (PStr "dict")
+                             then do v <- py_dict_get py_eqb kvs (PStr "values"); do w <- py_dict v; Ok w
+                             else Ok PNone);
+                   Ok j');
+     Ok j) = unwrap_aux (PDict kvs)).
+  { intros kvs. cbn [unwrap_aux]. unfold EvqeCodec.K. rewrite !pget_eq.
     destruct (pdict_get (PStr "type") kvs) as [t|]; cbn [bind]; [|reflexivity].
     destruct (py_eqb t (PStr "list")); [rewrite !bind_ok; reflexivity|].
     destruct (py_eqb t (PStr "dict")); [|reflexivity].
-    destruct (pdict_get (PStr "values") kvs) as [v|]; cbn [bind]; [|reflexivity]. rewrite !bind_ok. reflexivity.
-  - destruct c; try reflexivity. destruct l as [|x l]; [reflexivity|]. destruct x; try reflexivity. discriminate H.
+    destruct (pdict_get (PStr "values") kvs) as [v|]; cbn [bind]; [|reflexivity]. rewrite !bind_ok. reflexivity. }
+  destruct a as [| | | | | |kvs| | |c l]; try reflexivity.
+  - cbn [view_dict]. apply E.
+  - destruct c; try reflexivity. destruct l as [|x l]; [reflexivity|]. destruct x; try reflexivity.
+    cbn [view_dict]. rewrite E. reflexivity.
 Qed.
 
 Lemma link_parse_evolving_ansatz_result : forall d,
-  (forall a, dget "evolving_ansatz_result_aux_operators_evaluated" d = Ok a -> quasi_dict a = false) ->
   gen_parse_evolving_ansatz_result d = parse_evolving_ansatz_result head_flags d.
 Proof.
-  intros d Hq. unfold gen_parse_evolving_ansatz_result, parse_evolving_ansatz_result. abs_keys d. dict_norm. cbv zeta.
+  intros d. unfold gen_parse_evolving_ansatz_result, parse_evolving_ansatz_result. abs_keys d. dict_norm. cbv zeta.
   bind_step. destruct (dget k0 d) as [a|] eqn:Ea; cbn [bind]; [|reflexivity].
-  rewrite (unwrap_eq a (Hq a Ea)). repeat bind_step. reflexivity.
+  rewrite (unwrap_eq a). repeat bind_step. reflexivity.
 Qed.
 Print Assumptions link_parse_evolving_ansatz_result.
 
-(* the hook calls parse_evolving_ansatz_result on d itself: same hypothesis *)
-Lemma link_result_hook : forall d,
-  (forall a, dget "evolving_ansatz_result_aux_operators_evaluated" d = Ok a -> quasi_dict a = false) ->
-  gen_result_hook d = result_hook head_flags d.
+Lemma link_result_hook : forall d, gen_result_hook d = result_hook head_flags d.
 Proof.
-  intros d Hq. unfold gen_result_hook, result_hook. rewrite (link_parse_evolving_ansatz_result d Hq).
+  intros d. unfold gen_result_hook, result_hook. rewrite (link_parse_evolving_ansatz_result d).
   rewrite !any_key_eq.
   match goal with |- context [any_key_in (?x :: ?t) d] => change (x :: t) with result_own_keys end.
   gen_keys d. dict_norm.
